@@ -67,6 +67,17 @@ def run_case(case):
             continue
         ref = model.RefModel(spec, ph)
         res["counters"]["points"] += 1
+        if res["counters"]["points"] == 1:
+            ind = coords.independence_defect(rb, view, spec, w)
+            if ind is not None:
+                res["evals"] += 1
+                res["counters"]["independent_coordinates"] = ind[0]
+                if ind[1] != ind[0]:
+                    res["violations"].append({
+                        "kind": "coordinates-not-independent", "mech": "C01|coordinates-share-decision-variables",
+                        "detail": "%d node states / controls / per-interval and global variables are separate degrees "
+                                  "of freedom, their read-back spans only %d directions of the decision vector" % ind})
+                    break
         scale = max([1.0] + [float(np.max(np.abs(v))) for k, v in ph.items() if isinstance(v, np.ndarray) and v.size])
         if cls == "MS":
             exp = ref.dyn_atoms()
